@@ -15,6 +15,9 @@ class C08CountingBloom(Scenario):
         m, _ = common.geometry(est, rate)
         cfg = {"est": est, "rate": rate, "universe": rng.choice((3, 6, 12)), "steps": rng.between(3, self.max_steps)}
         cfg.update(structs.draw_hash(rng, m))
+        # a counting filter with ANOTHER hash-strategy object sees the same keys and dies before this run's filter and
+        # strategy object are created (Env.recycle)
+        cfg["recycle"] = rng.chance(1, 4)
         return cfg
 
     def gen_step(self, rng):
@@ -24,6 +27,9 @@ class C08CountingBloom(Scenario):
         u = self.cfg["universe"]
         r = rng.below(100)
         present = sorted(k for k, v in self.out.items() if v > 0)
+        if rng.chance(1, 30):
+            # several hundred look-ups of other keys between two operations of the history
+            return {"op": "noise", "cnt": rng.choice((300, 520, 1100)), "tag": self.n_gen}
         if r < 45 or not present and r < 70:
             return {"op": "add", "k": rng.below(u), "n": rng.weighted([(5, 1), (3, 2), (1, 9), (1, 1000)])}
         if r < 70:
@@ -40,6 +46,14 @@ class C08CountingBloom(Scenario):
         self.cfg = cfg
         self.n_gen = 0
         self.env = structs.Env(self.ctx, cfg, need_fs=False)
+
+        def prior_life(h):
+            d = CountingBloomFilter(cfg["est"], cfg["rate"], hash_function=h)
+            for k in range(cfg["universe"]):
+                d.add(seams.key_of(k), 1 + k % 2)
+                d.check(seams.key_of(k))
+
+        self.env.recycle(prior_life)
         self.o = CountingBloomFilter(cfg["est"], cfg["rate"], hash_function=self.env.hf)
         self.m, self.k = common.geometry(cfg["est"], cfg["rate"])
         self.out = {}
@@ -83,6 +97,10 @@ class C08CountingBloom(Scenario):
                                                          f"exported state (bytes differing at {d}; m={self.m} k={self.k})", sig)
             if mid != s0:
                 ctx.probe("bracket_changed_state")
+        elif op == "noise":
+            for i in range(step["cnt"]):
+                o.check(f"noise-{step['tag']}-{i}")
+            ctx.fault("lookup_burst")
         elif op == "remove_absent":
             key = seams.key_of(step["k"])
             if o.check(key) != 0:
